@@ -993,11 +993,32 @@ async fn updater_batch(zone: &Zone, mdl: &Mdl, who: &str, names: &[String]) {
                 }
                 up.apply(ZoneUpdate::BeginBatchDelete(soa_rec(serial).record())).await.expect("apply");
                 step().await;
+                // The deletions of this difference sequence (as an IXFR has
+                // them between the two SOAs): not visible to anybody before
+                // the next commit point.
+                for _ in 0..sim::draw("up.batch_deletes", 4) {
+                    let existing: Vec<RecSpec> = working
+                        .iter()
+                        .filter(|((_, t), _)| *t != Rtype::SOA && *t != Rtype::CNAME)
+                        .flat_map(|((o, t), (ttl, rds))| rds.iter().map(move |rd| RecSpec { owner: o.clone(), rtype: *t, ttl: *ttl, rdata: rd.clone() }))
+                        .collect();
+                    if existing.is_empty() {
+                        break;
+                    }
+                    let r = sim::pick("up.batch_del_which", &existing).clone();
+                    ev!("{} DeleteRecord {} (inside the difference sequence)", who, r.line());
+                    note_nodes(&mut mdl.borrow_mut().nodes, &r.owner);
+                    up.apply(ZoneUpdate::DeleteRecord(r.record())).await.expect("apply");
+                    apply_del(&mut working, &r);
+                    sim::stat("probe.deletion_inside_a_difference_sequence");
+                    step().await;
+                }
                 serial = serial.wrapping_add(1);
                 let s = soa_rec(serial);
                 up.apply(ZoneUpdate::BeginBatchAdd(s.record())).await.expect("apply");
                 working.remove(&(APEX.to_string(), Rtype::SOA));
                 apply_add(&mut working, &s);
+                step().await;
             }
         }
         step().await;
